@@ -1531,6 +1531,163 @@ theorem ionfree_iterate_between (I : BPIn ℝ) (phi philo phihi : List ℝ) (pm 
     obtain ⟨hc1, _, hlb, _⟩ := hentry i h1
     rw [List.getElem_map]; exact hlb
 
+/-! ## ions raise the potential: the returned Newton iterate (on-axis-density variant) -/
+
+theorem getD_zipWith_add (a b : List ℝ) (i : ℕ) (h : a.length = b.length) :
+    (List.zipWith (· + ·) a b).getD i 0 = a.getD i 0 + b.getD i 0 := by
+  simp only [List.getD_eq_getElem?_getD, List.getElem?_zipWith]
+  by_cases hi : i < a.length
+  · have hb : i < b.length := by omega
+    simp [List.getElem?_eq_getElem hi, List.getElem?_eq_getElem hb]
+  · have hb : ¬ i < b.length := by omega
+    simp [List.getElem?_eq_none (by omega : a.length ≤ i), List.getElem?_eq_none (by omega : b.length ≤ i)]
+
+/-- entry `i` of the column sum is the sum of the rows' entries -/
+theorem colSum_getD (n : ℕ) (rows : List (List ℝ)) (hr : ∀ r ∈ rows, r.length = n) (i : ℕ) :
+    (colSum n rows).getD i 0 = (rows.map fun r => r.getD i 0).sum := by
+  unfold colSum
+  have key : ∀ (rows : List (List ℝ)) (acc : List ℝ), acc.length = n → (∀ r ∈ rows, r.length = n) →
+      (rows.foldl (fun acc row => List.zipWith (· + ·) acc row) acc).getD i 0 = acc.getD i 0 + (rows.map fun r => r.getD i 0).sum := by
+    intro rows
+    induction rows with
+    | nil => intro acc _ _; simp
+    | cons r rs ih =>
+      intro acc ha hr
+      simp only [List.foldl_cons, List.map_cons, List.sum_cons]
+      rw [ih _ (by simp [ha, hr r (by simp)]) (fun r' hr' => hr r' (by simp [hr'])),
+        getD_zipWith_add acc r i (by rw [ha, hr r (by simp)])]
+      ring
+  rw [key rows _ (by simp) hr]
+  simp [List.getD_eq_getElem?_getD]
+  by_cases hi : i < n
+  · simp [hi]
+  · simp [hi]
+
+theorem getD_map_zero (f : ℝ → ℝ) (hf : f 0 = 0) (l : List ℝ) (i : ℕ) : (l.map f).getD i 0 = f (l.getD i 0) := by
+  simp only [List.getD_eq_getElem?_getD, List.getElem?_map]
+  cases l[i]? <;> simp [hf]
+
+theorem list_sum_nonpos : ∀ (l : List ℝ), (∀ x ∈ l, x ≤ 0) → l.sum ≤ 0
+  | [], _ => by simp
+  | a :: t, h => by
+    have := list_sum_nonpos t (fun x hx => h x (by simp [hx]))
+    have := h a (by simp)
+    simp only [List.sum_cons]; linarith
+
+/-- the ion part of the right-hand side of the Newton identity, node by node: every species contributes `a·(1 + (q/kT)·y)` with `a ≤ 0` -/
+theorem ion_term_nonpos (yi : ℝ) (i : ℕ) : ∀ (sp : List (Species ℝ)) (bxa : List (List ℝ)) (zp : List (List ℝ × ℝ)),
+    (∀ bx ∈ bxa, bx.getD i 0 ≤ 0) → (∀ s ∈ sp, 0 ≤ 1 + s.q / s.kT * yi) →
+    (bxa.map fun r => r.getD i 0).sum +
+      ((zipWith3 (fun (s : Species ℝ) (bx : List ℝ) (_ : List ℝ × ℝ) => bx.map fun v => v * s.q / s.kT) sp bxa zp).map fun r => r.getD i 0).sum * yi ≤ 0 := by
+  intro sp
+  induction sp with
+  | nil =>
+    intro bxa zp hb _
+    have : (bxa.map fun r => r.getD i 0).sum ≤ 0 := by
+      apply list_sum_nonpos; intro x hx; obtain ⟨r, hr, rfl⟩ := List.mem_map.mp hx; exact hb r hr
+    cases bxa <;> cases zp <;> simp [zipWith3] at this ⊢ <;> linarith
+  | cons s ss ih =>
+    intro bxa zp hb hs
+    cases bxa with
+    | nil => cases zp <;> simp [zipWith3]
+    | cons bx bxs =>
+      cases zp with
+      | nil =>
+        have : ((bx :: bxs).map fun r => r.getD i 0).sum ≤ 0 := by
+          apply list_sum_nonpos; intro x hx; obtain ⟨r, hr, rfl⟩ := List.mem_map.mp hx; exact hb r hr
+        simp only [zipWith3, List.map_nil, List.sum_nil, zero_mul, add_zero]; exact this
+      | cons z zs =>
+        have ih' := ih bxs zs (fun b hb' => hb b (by simp [hb'])) (fun t ht => hs t (by simp [ht]))
+        simp only [zipWith3, List.map_cons, List.sum_cons]
+        rw [getD_map_zero (fun v => v * s.q / s.kT) (by simp) bx i]
+        have ha := hb bx (by simp)
+        have hc := hs s (by simp)
+        have : bx.getD i 0 + bx.getD i 0 * s.q / s.kT * yi = bx.getD i 0 * (1 + s.q / s.kT * yi) := by ring
+        nlinarith [mul_nonpos_of_nonpos_of_nonneg ha hc]
+
+theorem getD_eq_of_lt (l : List ℝ) (i : ℕ) (h : i < l.length) : l.getD i 0 = l[i] := by
+  simp [List.getD_eq_getElem?_getD, h]
+
+/-- **adding positive ions never lowers the potential — for the returned Newton iterate** (on-axis-density variant): the potential
+`φ' = step φ` the solver returns lies, at every node, above the ion-free potential `φ₀` (`A φ₀ = −ρ₀/ε₀`) as soon as the last correction
+satisfies `1 + (q/kT)·y ≥ 0` for every species at every node (`y ≥ −kT/q`: the correction is small against the thermal voltage, which the
+stopping test provides). From the Newton identity, `A φ' = b₀ + Σ_s b_s ⊙ (1 + (q_s/kT_s) y)` with `b_s ≤ 0`. -/
+theorem ions_raise_potential_iterate_onaxis (I : BPIn ℝ) (phi phi0 : List ℝ) (hv : I.variant = .onaxis)
+    (hg : GridMP I.r) (hldu : I.ldu = fdNonuniform I.r)
+    (hphi : phi.length = I.r.length) (hphi0 : phi0.length = I.r.length)
+    (hb0 : I.b0.length = I.r.length) (hb0z : I.b0.getLast? = some 0)
+    (hq : ∀ s ∈ I.sp, 0 ≤ s.q) (hn : ∀ s ∈ I.sp, 0 ≤ s.nl)
+    (hp : PivotsOk 0 (newtonRows I.ldu (step I phi).jd (targetFun none I.ldu phi (step I phi).b)))
+    (hy : ∀ s ∈ I.sp, ∀ yi ∈ (step I phi).y, 0 ≤ 1 + s.q / s.kT * yi)
+    (hfree : mulL 0 I.ldu phi0 = I.b0)
+    (hw : (step I phi).phi.getLast? = some 0) (hw0 : phi0.getLast? = some 0) :
+    ∀ p ∈ List.zip phi0 (step I phi).phi, p.1 ≤ p.2 := by
+  have hnpos : 0 < phi.length := by have := hg.two_le; omega
+  have hstat : I.variant ≠ .ebeam → I.b0.length = phi.length ∧ I.b0.getLast? = some 0 := fun _ => ⟨by omega, hb0z⟩
+  have hbeam : I.variant = .ebeam → I.cden.length = phi.length ∧ I.cden.getLast? = some 0 := fun h => by rw [hv] at h; cases h
+  obtain ⟨hbl, _, hjl, _⟩ := step_wall_rhs I phi hnpos (by omega) hstat hbeam
+  have hldul : I.ldu.length = phi.length := by rw [hldu, fdNonuniform_length' I.r hg]; omega
+  have hid := self_consistent_partial I phi hldul (by omega) (by omega) hp
+  have hpl := step_phi_length I phi hnpos (by omega) hldul hstat hbeam
+  set bt := List.zipWith (· - ·) (step I phi).b (List.zipWith (· * ·) (step I phi).jd (step I phi).y) with hbt
+  have hbtl : bt.length = I.r.length := by
+    have := congrArg List.length hid
+    rw [mulL_length 0 _ _ (by omega)] at this
+    omega
+  -- entries of bt against b0
+  have hentry : ∀ i (h1 : i < I.b0.length) (h2 : i < bt.length), bt[i] ≤ I.b0[i] := by
+    obtain ⟨variant, r, ldu, b0, cden, e_kin, sp⟩ := I
+    simp only at hv hq hn hy hb0 hbl hjl ⊢
+    subst hv
+    intro i h1 h2
+    have hiy : i < (step ⟨Variant.onaxis, r, ldu, b0, cden, e_kin, sp⟩ phi).y.length := by
+      simp only [hbt, List.length_zipWith] at h2; omega
+    have hyi := fun s hs => hy s hs _ (List.getElem_mem hiy)
+    simp only [hbt, List.getElem_zipWith]
+    generalize hY : ((step ⟨Variant.onaxis, r, ldu, b0, cden, e_kin, sp⟩ phi).y)[i] = yi at hyi
+    simp only [step] at h2 hbl hjl ⊢
+    set shape : List (List ℝ) := sp.map fun s => phi.map fun p => Transc.exp (-s.q * (p - phi.headD (lit 0)) / s.kT) with hshape
+    have hsl := shape_len sp phi (fun s p => Transc.exp (-s.q * (p - phi.headD (lit 0)) / s.kT))
+    set i_sr : List ℝ := shape.map fun sh => trapz (List.zipWith (· * ·) r sh) r
+    set nax : List ℝ := zipWith3 (fun (s : Species ℝ) (_ : List ℝ) (_ : ℝ) => s.nl) sp shape i_sr with hnax
+    set bxa := zipWith3 (fun (s : Species ℝ) (sh : List ℝ) nx => zeroLast (sh.map fun v => -nx * s.q * v * Const.Q_E / Const.EPS_0)) sp shape nax with hbxa
+    have hB := bxa_rows phi.length hnpos sp shape nax (fun s nx v => -nx * s.q * v * Const.Q_E / Const.EPS_0) hsl
+    have hbx_nonpos : ∀ bx ∈ bxa, ∀ v ∈ bx, v ≤ 0 := by
+      intro bx hbx
+      obtain ⟨s, hs, sh, hsh, nx, hnx, rfl⟩ := mem_zipWith3 _ _ _ _ bx hbx
+      apply zeroLast_nonpos
+      intro v hv'
+      obtain ⟨w, hw', rfl⟩ := List.mem_map.mp hv'
+      have h1' := hq s hs
+      have h2' : 0 ≤ nx := by obtain ⟨s', hs', _, _, _, _, rfl⟩ := mem_zipWith3 _ _ _ _ nx hnx; exact hn s' hs'
+      have h3' : 0 ≤ w := by
+        rw [hshape] at hsh
+        obtain ⟨s', _, rfl⟩ := List.mem_map.mp hsh
+        obtain ⟨p, _, rfl⟩ := List.mem_map.mp hw'
+        exact (Real.exp_pos _).le
+      have : 0 ≤ nx * s.q * w * Const.Q_E / Const.EPS_0 := by
+        have := Const.Q_E_pos; have := Const.EPS_0_pos; positivity
+      have e : -nx * s.q * w * Const.Q_E / Const.EPS_0 = -(nx * s.q * w * Const.Q_E / Const.EPS_0) := by ring
+      rw [e]; linarith
+    have hbx_getD : ∀ bx ∈ bxa, bx.getD i 0 ≤ 0 := by
+      intro bx hbx
+      by_cases hi : i < bx.length
+      · rw [getD_eq_of_lt bx i hi]; exact hbx_nonpos bx hbx _ (List.getElem_mem hi)
+      · simp [List.getD_eq_getElem?_getD, List.getElem?_eq_none (by omega : bx.length ≤ i)]
+    set jrows := zipWith3 (fun (s : Species ℝ) (bx : List ℝ) (_ : List ℝ × ℝ) => bx.map fun v => v * s.q / s.kT) sp bxa (List.zip shape i_sr) with hjrows
+    have hJ := jrows_onaxis phi.length sp bxa (List.zip shape i_sr) hB
+    have hion := ion_term_nonpos yi i sp bxa (List.zip shape i_sr) hbx_getD hyi
+    rw [← colSum_getD phi.length bxa (fun r hr => (hB r hr).1) i, ← colSum_getD phi.length jrows (fun r hr => (hJ r hr).1) i] at hion
+    have hS1l : (colSum phi.length bxa).length = phi.length := (colSum_last phi.length hnpos bxa hB).1
+    have hS2l : (colSum phi.length jrows).length = phi.length := (colSum_last phi.length hnpos jrows hJ).1
+    have hi_phi : i < phi.length := by omega
+    rw [getD_eq_of_lt _ i (by omega), getD_eq_of_lt _ i (by omega)] at hion
+    rw [List.getElem_zipWith, List.getElem_map]
+    linarith
+  rw [hldu] at hid hfree
+  refine fd_comparison I.r I.b0 bt phi0 (step I phi).phi hg hb0 hbtl hphi0 (by omega) hfree hid ?_ hw0 hw
+  exact zip_le_of_getElem _ _ (by omega) hentry
+
 /-! ## heat capacity in a wide harmonic well -/
 
 section Harmonic
